@@ -64,6 +64,8 @@ let () =
                for j = 0 to w.(d) - 1 do pr "M %d %s %s %s\n" ix.(j) (dec_of_n l.lv_mem) (dec_of_n l.lv_msc) (puset d j) done
              else if t = 2 && Stdlib.Array.exists (fun l2 -> int_of_n l2.lv_type = 1 && l2.lv_width = l.lv_width) lv then
                ()   (* the core always merges a Die level identical to the Package level (hwloc_filter_levels_keep_structure) *)
+             else if is_cache l.lv_type && (let dup = ref false in for d2 = d + 1 to nl - 1 do if lv.(d2).lv_type = l.lv_type && lv.(d2).lv_width = l.lv_width then dup := true done; !dup) then
+               ()   (* merged into the deeper level of the same type (merge_insert_equal keeps the object inserted first) *)
              else if l.lv_type <> hWLOC_OBJ_GROUP then
                for j = 0 to w.(d) - 1 do pr "O %d %d %s %s\n" t ix.(j) (if is_cache l.lv_type then dec_of_n l.lv_mem else "0") (puset d j) done
            done;
